@@ -41,7 +41,7 @@ fn to_builder_bin(e: &Exp, vars: &IndexMap<String, Var>, r: &mut Rng) -> Expr {
             enum Opnd { I(i32), F(f64), V(Var), E(Expr) }
             let mut classify = |x: &Exp, r: &mut Rng| -> Opnd {
                 match x {
-                    Exp::Number(v) if v.fract() == 0.0 && v.abs() < 1e6 && r.chance(1, 2) => Opnd::I(*v as i32),
+                    Exp::Number(v) if v.fract() == 0.0 && v.abs() < 1e6 && !(*v == 0.0 && v.is_sign_negative()) && r.chance(1, 2) => Opnd::I(*v as i32),
                     Exp::Number(v) if r.chance(1, 2) => Opnd::F(*v),
                     Exp::Variable(n) if r.chance(2, 3) => Opnd::V(vars[n]),
                     other => Opnd::E(to_builder(other, vars, r)),
@@ -149,6 +149,8 @@ pub fn generate(seed: u64, n: usize, _thorough: bool, _corpus: Option<&str>) -> 
         out.extend(one(&m, &ds, &mut r, i));
         if i % 2 == 0 { if let Some(c) = eval_probe(&mut r) { out.push(c); } }
         if i % 2 == 1 { out.push(continuous_doors(&mut r)); }
+        out.extend(history_cases(&mut r));
+        out.push(pipe_case(&mut r));
     }
     out
 }
@@ -215,7 +217,11 @@ fn continuous_doors(r: &mut Rng) -> Case {
         std::panic::catch_unwind(std::panic::AssertUnwindSafe(|| f())).unwrap_or(("(panic)".to_string(), None))
     };
     let mut bopt = Some(b);
-    let o_builder = guard(&mut || match bopt.take().unwrap().solve_with(Clarabel) { Ok(s) => ("solution".to_string(), Some(s.value())), Err(BuilderError::Solver(e)) => (crate::props::c03::solver_error(&e), None), Err(BuilderError::Linearization(e)) => (crate::props::c01::lin_error(&e), None) });
+    let mut ref_outcome: Option<String> = None;
+    let o_builder = guard(&mut || match bopt.take().unwrap().solve_with(Clarabel) { Ok(s) => {
+            let asg = s.solution().assignment().iter().map(|a| format!("({} {})", sx::q(&a.name), sx::num(a.value))).collect::<Vec<_>>().join(" ");
+            ref_outcome = Some(format!("(solution {} (assign{}{}))", sx::num(s.value()), if asg.is_empty() { "" } else { " " }, asg));
+            ("solution".to_string(), Some(s.value())) }, Err(BuilderError::Solver(e)) => (crate::props::c03::solver_error(&e), None), Err(BuilderError::Linearization(e)) => (crate::props::c01::lin_error(&e), None) });
     let o_solver = guard(&mut || match RoocSolver::try_new(text.clone()) {
         Ok(s) => match s.solve_using(rooc::solve_real_lp_problem_clarabel) {
             Ok(sol) => ("solution".to_string(), Some(sol.value())),
@@ -229,7 +235,7 @@ fn continuous_doors(r: &mut Rng) -> Case {
     let runner = PipeRunner::new(vec![Box::new(CompilerPipe::new()), Box::new(PreModelPipe::new()), Box::new(ModelPipe::new()), Box::new(LinearModelPipe::new()), Box::new(RealSolver::new())]);
     let o_pipe = guard(&mut || match runner.run(PipeableData::String(text.clone()), &PipeContext::new(vec![], &fns)) {
         Ok(mut res) => match res.pop() { Some(PipeableData::RealSolution(sol)) => ("solution".to_string(), Some(sol.value())), _ => ("(pipe-no-solution)".into(), None) },
-        Err((e, _)) => { let s = format!("{:?}", e); (if s.contains("Infeasible") { "(infeasible)".into() } else if s.contains("Unbounded") { "(unbounded)".into() } else { format!("(pipe-error {})", sx::q(&s.chars().take(60).collect::<String>())) }, None) }
+        Err((e, _)) => { (match &e { rooc::pipe::PipeError::SolverError(se) => crate::props::c03::solver_error(se), other => { let s = format!("{:?}", other); format!("(pipe-error {})", sx::q(&s.chars().take(60).collect::<String>())) } }, None) }
     });
     let o_direct = guard(&mut || RoocParser::new(text.clone()).parse_and_transform(vec![], &fns).ok().and_then(|tm| Linearizer::linearize(tm).ok())
         .map(|lm| real_outcome(rooc::solve_real_lp_problem_clarabel(&lm))).unwrap_or(("(compile-error)".into(), None)));
@@ -237,6 +243,12 @@ fn continuous_doors(r: &mut Rng) -> Case {
     c.show = text.replace('\n', " ; ");
     c.imp = format!("(real-doors (builder {} {:?}) (roocsolver {} {:?}) (pipe {} {:?}) (direct {} {:?}))", o_builder.0, o_builder.1, o_solver.0, o_solver.1, o_pipe.0, o_pipe.1, o_direct.0, o_direct.1);
     c.tags = vec!["real-doors".into(), o_direct.0.trim_start_matches('(').split(|ch| ch == ' ' || ch == ')').next().unwrap_or("").to_string()];
+    // the builder door's answer is also judged by the mixed reference (no discrete declaration: one residual LP, solved by
+    // independent vertex enumeration; non-affine models are skipped there)
+    if o_builder.0 == "solution" || o_builder.0 == "(infeasible)" {
+        let outcome = if o_builder.0 == "solution" { ref_outcome.clone().unwrap_or_default() } else { "(infeasible)".to_string() };
+        if !outcome.is_empty() { c.oracle = format!("ref {} {}", sx::model(&text_model.clone().mark_all()), outcome); c.tags.push("real-doors-judged".into()); }
+    }
     c.nontrivial = o_direct.0 == "solution" || o_direct.0 == "(infeasible)";
     let all = [&o_builder, &o_solver, &o_pipe, &o_direct];
     if all.iter().any(|o| o.0 == "(panic)") {
@@ -244,6 +256,9 @@ fn continuous_doors(r: &mut Rng) -> Case {
         c.sig = Some(if text_model.domain().values().all(|d| !d.is_used()) { "clarabel-panic-no-variables".into() } else { "clarabel-panic".into() });
     } else if all.iter().any(|o| o.0 != o_direct.0) {
         c.impl_violation = Some(format!("real-solver front doors disagree on the verdict: {}", c.imp));
+        // root cause flag: Clarabel gives up with `Numerical error` on one door's LP and proves infeasibility on the other's
+        // (the builder keeps declared-but-unused variables as extra columns, which changes Clarabel's numerics)
+        if all.iter().all(|o| o.0 == "(infeasible)" || o.0.contains("Numerical error")) { c.sig = Some("clarabel-numerical-error-on-infeasible".into()); }
     } else if !matches!(m.objective().objective_type, OptimizationType::Satisfy) {
         if let Some(v) = o_direct.1 {
             if all.iter().any(|o| o.1.map(|w| (w - v).abs() > 1e-5 * v.abs().max(1.0)).unwrap_or(true)) {
@@ -424,4 +439,358 @@ fn match_paren(s: &str) -> usize {
 trait MarkAll { fn mark_all(self) -> Model; }
 impl MarkAll for Model {
     fn mark_all(mut self) -> Model { for v in self.domain_mut().values_mut() { if !v.is_used() { v.increment_usage(); } } self }
+}
+
+// ======================================================================================================
+// builder CALL HISTORIES: a random sequence of `add_var / add_vars / with / with_all / maximize / minimize / satisfy`
+// on a real `ModelBuilder` (every call under `catch_unwind`, the builder is used on after a panic), then
+// `into_model`, then read-backs through `BuilderSolution` for a hand-made solution (a `Solver` that returns it) and
+// for the real `Auto` solver.  The Lean model replays the same history (`C16 float history …`).
+
+use rooc::{Assignment, LpSolution, SolverError, LinearModel};
+use rooc::builder::Solver;
+
+struct Canned(LpSolution<MILPValue>);
+impl Solver for Canned {
+    type Solution = LpSolution<MILPValue>;
+    fn solve(&self, _m: &LinearModel) -> Result<Self::Solution, SolverError> { Ok(self.0.clone()) }
+}
+
+fn sx_val(v: MILPValue) -> String {
+    match v { MILPValue::Bool(b) => format!("(bool {})", b), MILPValue::Int(i) => format!("(int {})", i), MILPValue::Real(x) => format!("(real {})", sx::num(x)) }
+}
+fn sx_bc(name: &str, cmp: Comparison, l: &Exp, rr: &Exp, a: bool) -> String {
+    format!("(bc {} {} {} {} {})", sx::q(name), sx::cmp(cmp), sx::exp(l), sx::exp(rr), a)
+}
+fn sx_rmodel(m: &Model) -> String {
+    let mut s = format!("(rmodel ({} {}) (constraints", sx::opt_type(&m.objective().objective_type), sx::exp(&m.objective().rhs));
+    for c in m.constraints() { s.push(' '); s.push_str(&sx_bc(c.name(), c.constraint_type(), c.lhs(), c.rhs(), c.is_logic_assertion())); }
+    s.push_str(") ");
+    s.push_str(&sx::domain(m.domain()));
+    s.push(')');
+    s
+}
+fn sx_sol(s: &LpSolution<MILPValue>) -> String {
+    let asg = s.assignment().iter().map(|a| format!("({} {})", sx::q(&a.name), sx_val(a.value))).collect::<Vec<_>>().join(" ");
+    let rows = s.constraints().iter().map(|(k, v)| format!("({} {})", sx::q(k), sx::num(*v))).collect::<Vec<_>>().join(" ");
+    let duals = s.shadow_prices().iter().map(|(k, v)| format!("({} {})", sx::q(k), sx::num(*v))).collect::<Vec<_>>().join(" ");
+    let sec = |h: &str, b: String| if b.is_empty() { format!("({})", h) } else { format!("({} {})", h, b) };
+    format!("(sol (value {}) {} {} {})", sx::num(s.value()), sec("assign", asg), sec("rows", rows), sec("duals", duals))
+}
+fn opt_num(v: Option<f64>) -> String { v.map(sx::num).unwrap_or("none".into()) }
+
+fn hist_type(r: &mut Rng, discrete: bool) -> VariableType {
+    match r.below(if discrete { 4 } else { 6 }) {
+        0 | 1 => VariableType::Boolean,
+        2 | 3 => { let lo = r.range(-2, 1) as i32; VariableType::IntegerRange(lo, lo + r.range(0, 3) as i32) }
+        4 => { let lo = r.range(-3, 1) as f64; VariableType::Real(lo, lo + r.range(1, 6) as f64) }
+        _ => VariableType::NonNegativeReal(0.0, r.range(1, 6) as f64),
+    }
+}
+
+struct Hist { b: ModelBuilder, minted: Vec<Var>, ops: Vec<String>, outs: Vec<String>, tags: Vec<String>, cnames: Vec<String>, linear: bool }
+
+impl Hist {
+    fn tag(&mut self, t: &str) { if !self.tags.iter().any(|x| x == t) { self.tags.push(t.to_string()); } }
+    /// the handle table handed to `to_builder`: minted handles by index, and (non-linear histories only) unknown indices
+    fn table(&self, r: &mut Rng) -> (IndexMap<String, Var>, Vec<String>) {
+        let mut m = IndexMap::new();
+        let mut names = vec![];
+        for v in &self.minted { m.insert(v.index.to_string(), *v); names.push(v.index.to_string()); }
+        if !self.linear && r.chance(1, 8) {
+            // a handle that was never minted by this builder (or was lost in a panicking add_vars)
+            let k = self.minted.len() + r.below(3);
+            m.insert(k.to_string(), Var { index: k });
+            names.push(k.to_string());
+        }
+        (m, names)
+    }
+    fn expr(&mut self, r: &mut Rng, depth: u32) -> (Exp, Expr) {
+        let (tab, names) = self.table(r);
+        if names.iter().any(|n| n.parse::<usize>().unwrap() >= self.minted.len()) { self.tag("unknown-handle-in-expression"); }
+        let e = if self.linear {
+            // a linear form over the minted handles
+            if names.is_empty() { Exp::Number(r.range(0, 3) as f64) } else {
+                let mut e = Exp::Variable(r.pick(&names).clone());
+                for _ in 0..r.below(3) {
+                    let t = Exp::BinOp(BinOp::Mul, Box::new(Exp::Number(r.range(1, 3) as f64)), Box::new(Exp::Variable(r.pick(&names).clone())));
+                    e = Exp::BinOp(if r.chance(2, 3) { BinOp::Add } else { BinOp::Sub }, Box::new(e), Box::new(t));
+                }
+                e
+            }
+        } else {
+            let special = r.chance(1, 6);
+            crate::gen_exp::exp(r, &crate::gen_exp::ExpCfg { vars: names, logic: true, minmax: true, special }, depth)
+        };
+        let be = to_builder(&e, &tab, r);
+        (builder_shape(&e), be)
+    }
+    fn constraint(&mut self, r: &mut Rng) -> (String, BuilderConstraint) {
+        let name = if r.chance(1, 3) { String::new() } else { r.pick(&["c", "d", "cap", "c"]).to_string() + &r.below(3).to_string() };
+        self.cnames.push(name.clone());
+        let cmps = [Comparison::LessOrEqual, Comparison::GreaterOrEqual, Comparison::Equal, Comparison::Less, Comparison::Greater];
+        let (l, bl) = self.expr(r, 2);
+        match r.below(if self.linear { 6 } else { 10 }) {
+            0..=5 => {
+                let cmp = if self.linear { cmps[r.below(3)] } else { *r.pick(&cmps) };
+                let (rr, br) = if self.linear { let k = r.range(0, 6) as f64; (Exp::Number(k), Expr::from(k)) } else { self.expr(r, 1) };
+                self.tag("bc-new");
+                (sx_bc(&name, cmp, &l, &rr, false), BuilderConstraint::new(bl, cmp, br, name))
+            }
+            6 | 7 => {
+                self.tag("bc-assert");
+                (sx_bc(&name, Comparison::Equal, &l, &Exp::Number(1.0), true), BuilderConstraint::new_logic_assertion(bl, name))
+            }
+            _ => {
+                // the fields are public: an assertion flag next to an arbitrary comparison / right-hand side
+                let cmp = *r.pick(&cmps);
+                let (rr, br) = self.expr(r, 1);
+                let a = r.chance(2, 3);
+                self.tag(if a { "bc-raw-assert" } else { "bc-raw" });
+                (sx_bc(&name, cmp, &l, &rr, a), BuilderConstraint { name, lhs: bl, constraint_type: cmp, rhs: br, is_logic_assertion: a })
+            }
+        }
+    }
+    fn step(&mut self, r: &mut Rng) {
+        let pool = ["x", "y", "z", "x_0", "x_1", "y_1", "w"];
+        match r.below(11) {
+            0..=2 => {
+                let name = r.pick(&pool).to_string();
+                let ty = hist_type(r, self.linear);
+                self.ops.push(format!("(add-var {} {})", sx::q(&name), sx::var_type(&ty)));
+                let b = &mut self.b;
+                match std::panic::catch_unwind(std::panic::AssertUnwindSafe(|| b.add_var(name.clone(), ty))) {
+                    Ok(v) => { self.minted.push(v); self.outs.push(format!("(handles {})", v.index)); self.tag("add-var"); }
+                    Err(p) => { self.outs.push(format!("(duplicate {})", sx::q(&dup_name(&p)))); self.tag("add-var-duplicate"); }
+                }
+            }
+            3 | 4 => {
+                let name = r.pick(&["x", "y", "v"]).to_string();
+                let count = r.below(4);
+                let ty = hist_type(r, self.linear);
+                self.ops.push(format!("(add-vars {} {} {})", sx::q(&name), count, sx::var_type(&ty)));
+                let b = &mut self.b;
+                match std::panic::catch_unwind(std::panic::AssertUnwindSafe(|| b.add_vars(&name, count, ty))) {
+                    Ok(vs) => {
+                        self.outs.push(if vs.is_empty() { "(handles)".into() } else { format!("(handles {})", vs.iter().map(|v| v.index.to_string()).collect::<Vec<_>>().join(" ")) });
+                        self.tag(if vs.is_empty() { "add-vars-empty" } else { "add-vars" });
+                        self.minted.extend(vs);
+                    }
+                    Err(p) => { self.outs.push(format!("(duplicate {})", sx::q(&dup_name(&p)))); self.tag("add-vars-duplicate"); }
+                }
+            }
+            5..=7 => {
+                let (s, c) = self.constraint(r);
+                self.ops.push(format!("(with {})", s));
+                self.outs.push("(unit)".into());
+                self.b = std::mem::take(&mut self.b).with(c);
+                self.tag("with");
+            }
+            8 => {
+                let n = r.below(3);
+                let mut ss = vec![]; let mut cs = vec![];
+                for _ in 0..n { let (s, c) = self.constraint(r); ss.push(s); cs.push(c); }
+                self.ops.push(if ss.is_empty() { "(with-all)".into() } else { format!("(with-all {})", ss.join(" ")) });
+                self.outs.push("(unit)".into());
+                self.b = std::mem::take(&mut self.b).with_all(cs);
+                self.tag(if n == 0 { "with-all-empty" } else { "with-all" });
+            }
+            9 => {
+                // the objective, also through the `sum` helper
+                let (e, be) = if r.chance(1, 3) {
+                    let k = r.below(4).min(self.minted.len() + 1);
+                    let picks: Vec<Var> = (0..k).filter_map(|_| if self.minted.is_empty() { None } else { Some(*r.pick(&self.minted)) }).collect();
+                    let be = rooc::builder::sum(picks.clone());
+                    let mut it = picks.iter().map(|v| Exp::Variable(v.index.to_string()));
+                    let e = match it.next() { None => Exp::Number(0.0), Some(f) => it.fold(f, |a, x| Exp::BinOp(BinOp::Add, Box::new(a), Box::new(x))) };
+                    self.tag(if picks.is_empty() { "sum-empty" } else { "sum" });
+                    (e, be)
+                } else { self.expr(r, 2) };
+                let max = r.chance(1, 2);
+                self.ops.push(format!("({} {})", if max { "maximize" } else { "minimize" }, sx::exp(&e)));
+                self.outs.push("(unit)".into());
+                let b = std::mem::take(&mut self.b);
+                self.b = if max { b.maximize(be) } else { b.minimize(be) };
+                self.tag(if max { "maximize" } else { "minimize" });
+            }
+            _ => {
+                self.ops.push("(satisfy)".into());
+                self.outs.push("(unit)".into());
+                self.b = std::mem::take(&mut self.b).satisfy();
+                self.tag("satisfy");
+            }
+        }
+    }
+}
+
+fn dup_name(p: &Box<dyn std::any::Any + Send>) -> String {
+    let msg = p.downcast_ref::<String>().cloned().or_else(|| p.downcast_ref::<&str>().map(|s| s.to_string())).unwrap_or_default();
+    // `a variable named "NAME" already exists; …`
+    msg.split('"').nth(1).unwrap_or("?").to_string()
+}
+
+fn random_milp(r: &mut Rng) -> MILPValue {
+    match r.below(3) { 0 => MILPValue::Bool(r.chance(1, 2)), 1 => MILPValue::Int(r.range(-4, 9) as i32), _ => MILPValue::Real(r.range(-20, 20) as f64 / 4.0) }
+}
+
+fn history_cases(r: &mut Rng) -> Vec<Case> {
+    let linear = r.chance(2, 5);
+    let mut h = Hist { b: ModelBuilder::new(), minted: vec![], ops: vec![], outs: vec![], tags: vec!["history".into()], cnames: vec![], linear };
+    if linear { h.tag("linear-history"); }
+    let span = if r.chance(1, 6) { 24 } else { 9 };
+    let n = 2 + r.below(span);
+    for _ in 0..n { h.step(r); }
+    if h.ops.len() >= 12 { h.tag("long-history"); }
+    let model = std::panic::catch_unwind(std::panic::AssertUnwindSafe(|| h.b.clone().into_model()));
+    let model_sx = match &model { Ok(m) => sx_rmodel(m), Err(_) => { h.tag("index-panic"); "(index-panic)".to_string() } };
+    let head_req = format!("history (ops{}{})", if h.ops.is_empty() { "" } else { " " }, h.ops.join(" "));
+    let head_imp = format!("(outcomes{}{}) {}", if h.outs.is_empty() { "" } else { " " }, h.outs.join(" "), model_sx);
+    let show = format!("builder history: {}", h.ops.join(" "));
+    let mut cases = vec![];
+    // the read-back queries: every minted handle + an unknown one; arbitrary expressions; constraint names + an unknown one
+    let mut q_handles: Vec<usize> = h.minted.iter().map(|v| v.index).collect();
+    q_handles.push(h.minted.len() + r.below(2));
+    let save_linear = h.linear; h.linear = false;
+    let mut q_exprs = vec![];
+    for _ in 0..2 { q_exprs.push(h.expr(r, 3)); }
+    h.linear = save_linear;
+    let mut q_cnames: Vec<String> = h.cnames.clone(); q_cnames.push("nope".into()); q_cnames.dedup();
+    let declared: Vec<String> = match &model { Ok(m) => m.domain().keys().cloned().collect(), Err(_) => vec![] };
+    let readback = |sol: &rooc::BuilderSolution<Canned>| -> String {
+        let vv = q_handles.iter().map(|i| sol.var_value(Var { index: *i }).map(sx_val).unwrap_or("none".into())).collect::<Vec<_>>().join(" ");
+        let nv = q_handles.iter().map(|i| opt_num(sol.numeric_value(Var { index: *i }))).collect::<Vec<_>>().join(" ");
+        let ev = q_exprs.iter().map(|(_, be)| sx::num(sol.eval(be))).collect::<Vec<_>>().join(" ");
+        let cv = q_cnames.iter().map(|c| opt_num(sol.constraint_value(c))).collect::<Vec<_>>().join(" ");
+        let dv = q_cnames.iter().map(|c| opt_num(sol.shadow_price(c))).collect::<Vec<_>>().join(" ");
+        let sec = |hd: &str, b: String| if b.is_empty() { format!("({})", hd) } else { format!("({} {})", hd, b) };
+        format!("(readback (value {}) {} {} {} {} {})", sx::num(sol.value()), sec("var-values", vv), sec("numeric", nv), sec("evals", ev), sec("cvalues", cv), sec("duals", dv))
+    };
+    let queries = format!("(handles {}) (exprs {}) (cnames {})", q_handles.iter().map(|i| i.to_string()).collect::<Vec<_>>().join(" "),
+        q_exprs.iter().map(|(e, _)| sx::exp(e)).collect::<Vec<_>>().join(" "), q_cnames.iter().map(|c| sx::q(c)).collect::<Vec<_>>().join(" "));
+    // (1) a hand-made solution: repeated names (first wins), names of other models, declared variables without a value
+    let mut asg = vec![];
+    for n in &declared { if r.chance(4, 5) { asg.push(Assignment { name: n.clone(), value: random_milp(r) }); } }
+    if r.chance(1, 2) && !declared.is_empty() { asg.push(Assignment { name: r.pick(&declared).clone(), value: random_milp(r) }); h.tag("solution-repeated-name"); }
+    if r.chance(1, 3) { asg.insert(0, Assignment { name: "$aux_0".into(), value: random_milp(r) }); }
+    let mut rows = IndexMap::new();
+    for c in &h.cnames { if r.chance(3, 4) { rows.insert(c.clone(), r.range(-8, 8) as f64 / 2.0); } }
+    let mut duals = IndexMap::new();
+    for c in &h.cnames { if r.chance(1, 3) { duals.insert(c.clone(), r.range(-8, 8) as f64 / 2.0); } }
+    let canned = LpSolution::new(asg, r.range(-9, 9) as f64 / 2.0, rows).with_shadow_prices(duals);
+    let solved = std::panic::catch_unwind(std::panic::AssertUnwindSafe(|| h.b.clone().solve_with(Canned(canned.clone()))));
+    let mut c = Case::default();
+    c.tags = h.tags.clone();
+    c.nontrivial = true;
+    c.show = show.clone();
+    match solved {
+        Ok(Ok(sol)) => {
+            c.tags.push("readback-canned".into());
+            if q_handles.iter().any(|i| sol.var_value(Var { index: *i }).is_none()) { c.tags.push("var-value-none".into()); }
+            c.req = format!("{} (solution {} {})", head_req, sx_sol(&canned), queries);
+            c.imp = format!("(ok {} {})", head_imp, readback(&sol));
+        }
+        Ok(Err(_)) => { c.tags.push("not-linearizable".into()); c.req = head_req.clone(); c.imp = format!("(ok {})", head_imp); }
+        Err(_) => {
+            c.req = head_req.clone(); c.imp = format!("(ok {})", head_imp);
+            if model.is_ok() { c.impl_violation = Some("solve_with panicked although into_model succeeded".into()); }
+        }
+    }
+    cases.push(c);
+    // (2) the real default solver on a linear history: its own solution through the same read-backs
+    if linear && model.is_ok() {
+        if let Ok(Ok(real)) = std::panic::catch_unwind(std::panic::AssertUnwindSafe(|| h.b.clone().solve_with(Auto))) {
+            let inner: LpSolution<MILPValue> = real.solution().clone();
+            if let Ok(Ok(sol)) = std::panic::catch_unwind(std::panic::AssertUnwindSafe(|| h.b.clone().solve_with(Canned(inner.clone())))) {
+                let mut c = Case::default();
+                c.tags = vec!["history".into(), "readback-real".into()];
+                c.nontrivial = true;
+                c.show = show;
+                c.req = format!("{} (solution {} {})", head_req, sx_sol(&inner), queries);
+                c.imp = format!("(ok {} {})", head_imp, readback(&sol));
+                // the wrapper hands back exactly what the solver returned
+                let same = q_handles.iter().all(|i| real.var_value(Var { index: *i }).map(milp) == sol.var_value(Var { index: *i }).map(milp)) && real.value().to_bits() == sol.value().to_bits();
+                if !same { c.impl_violation = Some("BuilderSolution of the real solver differs from the one rebuilt from its LpSolution".into()); }
+                cases.push(c);
+            }
+        }
+    }
+    cases
+}
+
+// ======================================================================================================
+// the staged PIPE RUNNER with arbitrary (also ill-typed) sequences of the eleven built-in pipes: which results were
+// accumulated, where the run stopped and with which `PipeError` (tag mismatch `InvalidData { expected, got }` or the
+// pipe's own failure wrapped in its variant).  The Lean model (`Rooc/Pipes.lean`) knows the typing table of the pipes
+// and `run_pipe`; the position of a failing stage FUNCTION is handed to it.
+
+use rooc::pipe::{PipeError, Pipeable, StandardLinearModelPipe, StepByStepSimplexPipe, TableauPipe};
+
+fn pipe_case(r: &mut Rng) -> Case {
+    let names = ["CompilerPipe", "PreModelPipe", "ModelPipe", "LinearModelPipe", "StandardLinearModelPipe", "TableauPipe",
+                 "RealSolver", "StepByStepSimplexPipe", "MILPSolverPipe", "AutoSolverPipe"];
+    let make = |n: &str| -> Box<dyn Pipeable> { match n {
+        "CompilerPipe" => Box::new(CompilerPipe::new()), "PreModelPipe" => Box::new(PreModelPipe::new()), "ModelPipe" => Box::new(ModelPipe::new()),
+        "LinearModelPipe" => Box::new(LinearModelPipe::new()), "StandardLinearModelPipe" => Box::new(StandardLinearModelPipe::new()),
+        "TableauPipe" => Box::new(TableauPipe::new()), "RealSolver" => Box::new(RealSolver::new()),
+        "StepByStepSimplexPipe" => Box::new(StepByStepSimplexPipe::new()),
+        "MILPSolverPipe" => Box::new(MILPSolverPipe::new()), _ => Box::new(AutoSolverPipe::new()) } };
+    // what follows what in a well-typed chain
+    let next_ok = |last: &str| -> Vec<&'static str> { match last {
+        "" => vec!["CompilerPipe"], "CompilerPipe" => vec!["PreModelPipe"], "PreModelPipe" => vec!["ModelPipe"], "ModelPipe" => vec!["LinearModelPipe"],
+        "LinearModelPipe" => vec!["StandardLinearModelPipe", "RealSolver", "MILPSolverPipe", "AutoSolverPipe"],
+        "StandardLinearModelPipe" => vec!["TableauPipe"], "TableauPipe" => vec!["StepByStepSimplexPipe"], _ => vec![] } };
+    let n = r.below(8);
+    let mut seq: Vec<&str> = vec![];
+    // one run in four: the whole step-by-step simplex preset
+    if r.chance(1, 4) { seq = vec!["CompilerPipe", "PreModelPipe", "ModelPipe", "LinearModelPipe", "StandardLinearModelPipe", "TableauPipe", "StepByStepSimplexPipe"]; }
+    for _ in 0..(if seq.is_empty() { n } else { r.below(2) }) {
+        let ok = next_ok(seq.last().copied().unwrap_or(""));
+        if !ok.is_empty() && r.chance(5, 6) { seq.push(*r.pick(&ok)); } else { seq.push(*r.pick(&names)); }
+    }
+    // sources: fine (continuous so that the simplex pipes apply / discrete), a syntax error, an undeclared variable, a product
+    let texts = [
+        "max x + y\ns.t.\n    c: x + 2 * y <= 4\n    d: x <= 3\ndefine\n    x as NonNegativeReal\n    y as NonNegativeReal",
+        "min x\ns.t.\n    c: x + y >= 1\ndefine\n    x as Boolean\n    y as IntegerRange(0, 2)",
+        "max x +\ns.t.\n    c: <= 4",
+        "max x\ns.t.\n    c: x + q <= 4\ndefine\n    x as Boolean",
+        "max x * y\ns.t.\n    c: x + y <= 4\ndefine\n    x as NonNegativeReal\n    y as NonNegativeReal",
+        "max x\ns.t.\n    c: x >= 1\ndefine\n    x as NonNegativeReal",
+        "min x\ns.t.\n    c: x >= 2\n    d: x <= 1\ndefine\n    x as NonNegativeReal",
+        "min x\ns.t.\n    c: x < 2\ndefine\n    x as NonNegativeReal",
+        "min x + y\ns.t.\n    c: x + y >= 1\ndefine\n    x as Boolean\n    y as NonNegativeReal",
+    ];
+    let ti = r.below(texts.len());
+    let fns = IndexMap::new();
+    let runner = PipeRunner::new(seq.iter().map(|n| make(n)).collect());
+    let res = std::panic::catch_unwind(std::panic::AssertUnwindSafe(|| runner.run(PipeableData::String(texts[ti].to_string()), &PipeContext::new(vec![], &fns))));
+    let ty = |d: &PipeableData| format!("{:?}", d.get_type());
+    let tys = |v: &Vec<PipeableData>| v.iter().map(|d| ty(d)).collect::<Vec<_>>().join(" ");
+    let mut c = Case::default();
+    c.show = format!("PipeRunner [{}] on text #{}", seq.join(", "), ti);
+    c.tags = vec!["pipe-runner".into()];
+    c.nontrivial = !seq.is_empty();
+    let mut fail = "none".to_string();
+    match res {
+        Err(_) => { c.impl_violation = Some(format!("PipeRunner panicked: {}", c.show)); c.imp = "(panic)".into(); }
+        Ok(Ok(rs)) => { c.imp = format!("(ok {})", tys(&rs)); c.tags.push("pipe-ok".into()); }
+        Ok(Err((e, rs))) => {
+            let ev = match &e {
+                PipeError::InvalidData { expected, got } => { c.tags.push("pipe-invalid-data".into()); format!("(invalid-data {:?} {:?})", expected, got) }
+                other => {
+                    fail = format!("(fail {})", rs.len() - 1);
+                    let v = match other {
+                        PipeError::EmptyPipeData => "EmptyPipeData", PipeError::CompilationError { .. } => "CompilationError", PipeError::TransformError { .. } => "TransformError",
+                        PipeError::LinearizationError(_) => "LinearizationError", PipeError::StandardizationError(_) => "StandardizationError",
+                        PipeError::CanonicalizationError(_) => "CanonicalizationError", PipeError::StepByStepSimplexError(..) => "StepByStepSimplexError",
+                        PipeError::SolverError(_) => "SolverError", PipeError::Other(_) => "Other", PipeError::InvalidData { .. } => unreachable!(),
+                    };
+                    c.tags.push(format!("pipe-{}", v));
+                    format!("(stage {})", v)
+                }
+            };
+            c.imp = format!("(err {} (results {}))", ev, tys(&rs));
+        }
+    }
+    c.req = format!("run-pipe (pipes{}{}) String {}", if seq.is_empty() { "" } else { " " }, seq.join(" "), fail);
+    c
 }
